@@ -68,6 +68,15 @@ def main():
                     time.sleep(3600)
                 if b == 'late':
                     time.sleep(timeout + 0.35)
+                if b == 'die_idle':
+                    # the worker answers this replay normally and is killed a moment later while it sits idle between replays
+                    import signal
+                    import threading
+
+                    def _kill_later():
+                        time.sleep(0.3)
+                        os.kill(os.getpid(), signal.SIGKILL)
+                    threading.Thread(target=_kill_later, daemon=True).start()
             tok = v['token']
             self.write(tok + ('-CHANGED' if (b == 'different' and rec.in_playback_mode) else ''))
             return tok
@@ -179,6 +188,8 @@ def main():
                 'playback_token': (next((o.value['args'][0] for o in pb.recorded_outputs if 'eq.write' in o.key), None) if pb is not None else None),
             })
             k += 1
+            if case['behaviours'][k - 1] == 'die_idle' and case['dedicated']:
+                time.sleep(0.9)          # the consumer is busy while the idle worker dies
             if consume != 'full' and k >= consume[1]:
                 if consume[0] == 'close':
                     gen.close()
